@@ -3,6 +3,7 @@ package main
 
 import (
 	"fmt"
+	"os"
 	"go/ast"
 	"go/token"
 	"go/types"
@@ -142,6 +143,16 @@ func (c *Ctx) callWith(fr *Frame, st *State, reach string, com *ssa.CallCommon, 
 		return c.builtin(fr, st, reach, b, com, pos, args, resT)
 	}
 	callee := com.StaticCallee()
+	if callee == nil && !com.IsInvoke() {
+		// call through a package-level function variable that is never assigned after initialisation
+		if tgt, recv, ok := c.constFuncGlobal(com.Value); ok {
+			callee = tgt
+			if recv != nil {
+				args = append([]Val{recv}, args...)
+			}
+			c.notes["const-func-global:"+exprText(com.Value)]++
+		}
+	}
 	if callee != nil && !com.IsInvoke() {
 		if _, isClosure := com.Value.(*ssa.MakeClosure); isClosure {
 			bail("call of closure")
@@ -205,6 +216,9 @@ func (c *Ctx) callWith(fr *Frame, st *State, reach string, com *ssa.CallCommon, 
 			return mkRes()
 		}
 		if inModule(callee) {
+			if os.Getenv("VCGO_DEBUG") != "" {
+				fmt.Fprintf(os.Stderr, "DEBUG unknown call %s from %s: contract=%v specMode=%v depth=%d\n", fnName(callee), fnName(fr.fn), c.contractFor(callee) != nil, c.specMode, fr.depth)
+			}
 			c.unknownCalls[fnName(callee)]++
 		} else {
 			c.unknownCalls[depName(callee)]++
@@ -536,7 +550,7 @@ func (c *Ctx) contractCall(fr *Frame, ct *Contract, callee *ssa.Function, com *s
 			if _, isRef := ptrAsRef(p); !isRef && p.Kind != 2 {
 				bail("interior/local pointer passed to contract callee %s (arg %d)", ct.Name, i)
 			}
-			if p.Kind == 2 {
+			if _, isRef := ptrAsRef(p); p.Kind == 2 && !isRef {
 				if p.Idx == WHOLE {
 					// pointer to whole memory array: pass as ref = id/4096 is not representable; treat as outside subset
 					bail("pointer to array passed to contract callee %s", ct.Name)
@@ -690,6 +704,10 @@ func (c *Ctx) resolveMod(env *CEnv, m Clause) modLoc {
 			cerr("modifies %s: not a pointer", m.Text)
 		}
 		r, _ := ptrAsRef(base.V)
+		if at, ok := pt.Elem().Underlying().(*types.Array); ok {
+			// pointer to a whole array object: its element memory has id 4096*ref
+			return modLoc{memId: "(* 4096 " + r.T + ")", elem: at.Elem()}
+		}
 		return modLoc{keyPfx: typeKey(pt.Elem()), ref: r.T, t: pt.Elem()}
 	}
 	cerr("unsupported modifies target %q", m.Text)
@@ -825,4 +843,50 @@ func (c *Ctx) poolCall(fr *Frame, st *State, reach string, callee *ssa.Function,
 // transparentEligible: loop-free, small, closure-free functions are inlined at call sites.
 func (w *World) transparentEligible(fn *ssa.Function) bool {
 	return len(fn.Blocks) > 0 && noLoops(fn) && len(fn.Blocks) <= maxInlineBlocks && len(fn.FreeVars) == 0 && fn.Parent() == nil
+}
+
+// constFuncGlobal resolves `*G` where G is a function-typed package variable of the module that is never stored to
+// outside package initialisation and whose initialiser is a named function or a method value on a field-less struct value.
+func (c *Ctx) constFuncGlobal(v ssa.Value) (*ssa.Function, Val, bool) {
+	u, ok := v.(*ssa.UnOp)
+	if !ok || u.Op != token.MUL {
+		return nil, nil, false
+	}
+	g, ok := u.X.(*ssa.Global)
+	if !ok {
+		return nil, nil, false
+	}
+	gi := c.w.globals[g.String()]
+	if gi == nil || gi.stored || gi.init == nil {
+		return nil, nil, false
+	}
+	if _, ok := g.Type().(*types.Pointer).Elem().Underlying().(*types.Signature); !ok {
+		return nil, nil, false
+	}
+	switch e := gi.init.(type) {
+	case *ast.Ident:
+		if f, ok := gi.info.Uses[e].(*types.Func); ok {
+			if fn := c.w.prog.FuncValue(f); fn != nil {
+				return fn, nil, true
+			}
+		}
+	case *ast.SelectorExpr:
+		if sel, ok := gi.info.Selections[e]; ok && sel.Kind() == types.MethodVal {
+			rt := sel.Recv()
+			st, ok := rt.Underlying().(*types.Struct)
+			if !ok || st.NumFields() != 0 {
+				return nil, nil, false
+			}
+			if fn := c.w.prog.MethodValue(sel); fn != nil {
+				return fn, c.zero(rt), true
+			}
+			return nil, nil, false
+		}
+		if f, ok := gi.info.Uses[e.Sel].(*types.Func); ok {
+			if fn := c.w.prog.FuncValue(f); fn != nil {
+				return fn, nil, true
+			}
+		}
+	}
+	return nil, nil, false
 }
